@@ -170,6 +170,8 @@ def oracle(fmt, mn, mx, st, val, impl):
         ok = (got == want) if kind == "int" else (float_of(got) == float_of(want))
         if not ok:
             slug = where + ":not-nearest-grid-point"
+            if intcase and abs(v) < 10 ** 6 and mn is not None and abs(fr(mn)) >= 10 ** 6:
+                slug = where + ":not-nearest-grid-point:small-value-large-offset"
             if "hi" in sp and not (sp["lo"] <= got <= sp["hi"]):
                 slug = where + ":outside-range"
             return (slug, f"{fmt} min={mn!r} max={mx!r} step={st!r} value={val!r}: exact arithmetic gives "
@@ -187,6 +189,13 @@ def oracle(fmt, mn, mx, st, val, impl):
         if "hi" in sp and not (sp["lo"] - tol <= got <= sp["hi"] + tol):
             return ("frac:outside-range", f"{impl} outside [{mn!r}, {mx!r}] although both bounds are on the grid")
     return None
+
+
+def json_case(case):
+    """the case as JSON (for --replay) when every component is a JSON scalar, else None"""
+    ok = all(x is None or (isinstance(x, (int, str)) and not isinstance(x, bool)) or (isinstance(x, float) and math.isfinite(x))
+             for x in case)
+    return list(case) if ok else None
 
 
 def path_of(fmt, mn, mx, st, val):
@@ -361,7 +370,7 @@ def rand_dec(r):
 
 
 def gen_ops(tier, r):
-    n = 4000 if tier == "quick" else 120000
+    n = 20000 if tier == "quick" else 300000
     out = []
     for _ in range(n):
         out.append((r.choice(["add", "sub", "mul", "div", "fix", "toint", "cmp", "int"]), r.choice([6, 6, 6, 1, 2, 3, 9, 28]),
@@ -412,12 +421,16 @@ def run(ctx):
         else:
             seen_keys[key] += 1
 
-    streams = [("grid", gen_grid(tier)), ("num", gen_num(tier, rng(seed, "c14num"))), ("bad", gen_bad(tier, rng(seed, "c14bad")))]
+    replay_case = None
     if ctx.get("replay"):
         import json
         rp = json.load(open(ctx["replay"]))
-        if "case" in rp:
-            streams = [("replay", [tuple(rp["case_py"])])] if "case_py" in rp else streams
+        if rp.get("case_json") is not None:
+            replay_case = tuple(rp["case_json"])
+    if replay_case is not None:
+        streams = [("replay", [replay_case])]
+    else:
+        streams = [("grid", gen_grid(tier)), ("num", gen_num(tier, rng(seed, "c14num"))), ("bad", gen_bad(tier, rng(seed, "c14bad")))]
     for sname, cases in streams:
         model = [model_canon(a) for a in drv.batch([model_line(*c) for c in cases])]
         for idx, (case, m) in enumerate(zip(cases, model)):
@@ -430,8 +443,9 @@ def run(ctx):
                         stream=sname, case=repr(case), impl=got, direct=direct)
             orc = oracle(fmt, mn, mx, st, val, got)
             crepr = dict(format=fmt, minValue=repr(mn), maxValue=repr(mx), minStep=repr(st), value=repr(val))
+            cj = json_case(case)
             if orc is not None:
-                add(orc[0], orc[1], True, stream=sname, case=crepr, impl=got, model=m)
+                add(orc[0], orc[1], True, stream=sname, case=crepr, case_json=cj, impl=got, model=m)
             elif got != m:
                 # the implementation satisfies the property here but left the model: look around for a failing input
                 near = None
@@ -443,9 +457,10 @@ def run(ctx):
                             near = (val + dv, g2, o2)
                             break
                 if near:
-                    add(near[2][0], near[2][1], True, stream=sname, case=dict(crepr, value=repr(near[0])), impl=near[1])
+                    add(near[2][0], near[2][1], True, stream=sname, case=dict(crepr, value=repr(near[0])),
+                        case_json=json_case((fmt, mn, mx, st, near[0])), impl=near[1])
                 else:
-                    add(f"{sname}:model-mismatch", f"implementation {got} != model {m} on {case!r}", False, stream=sname, case=crepr,
+                    add(f"{sname}:model-mismatch", f"implementation {got} != model {m} on {case!r}", False, stream=sname, case=crepr, case_json=cj,
                         impl=got, model=m, broken="correspondence Model/Convert.v <-> check_convert_value")
             nontrivial = fmt == "bool" or mn is not None or mx is not None or bool(st) or got.startswith("err")
             cov.case(repr(case), nontrivial,
@@ -456,7 +471,7 @@ def run(ctx):
                      magnitude=("n/a" if stepgrid.reading(val) is None or fmt == "bool" else
                                 "<1e6" if abs(stepgrid.reading(val)) < 10 ** 6 else "<2^32" if abs(stepgrid.reading(val)) < 2 ** 32 else ">=2^32"))
     # ---- the decimal operations one by one
-    ops = gen_ops(tier, rng(seed, "c14ops"))
+    ops = gen_ops(tier, rng(seed, "c14ops")) if replay_case is None else []
     ans = drv.batch([f"op {n} {p} {md} {dtok(a)}" + ("" if n in ("fix", "toint", "int") else " " + dtok(b)) for n, p, md, a, b in ops])
     for (n, p, md, a, b), m in zip(ops, ans):
         want = py_op(n, p, md, a, b)
